@@ -23,6 +23,23 @@ Proof.
   repeat constructor; simpl; intuition discriminate.
 Qed.
 
+(* A delayed multicast response (server side) is sent by coap_retransmit(): as found it did
+   "if (con_active) con_active--" for that node too, then coap_session_connected().  The node is
+   never a CON, nothing took the slot again. *)
+Definition ns_mcast_found (c : ns_cfg) (s : ns_st) : ns_st * list ns_out :=
+  ns_connected c (ns_set_act s (if ns_act s =? 0 then 0 else ns_act s - 1)).
+
+Lemma ns_mcast_refuted_found :
+  let c := ns_mkcfg 1 4 true false false in
+  let s := ns_run c (ns_init true) [NsSubmit (ns_mkmsg true 1 11); NsSubmit (ns_mkmsg true 2 12)] in
+  map ns_nmid (ns_sq s) = [1] /\ map ns_nmid (ns_dq s) = [2] /\
+  snd (ns_mcast_found c s) = [NsTx (ns_mkmsg true 2 12)] /\
+  map ns_nmid (ns_sq (fst (ns_mcast_found c s))) = [1; 2] /\
+  Z.of_nat (length (ns_sq (fst (ns_mcast_found c s)))) > ns_nstart c /\
+  (* repaired: the event is the flush of an established session and does nothing here *)
+  ns_step (ns_mkcfg 1 4 true true false) s NsUp = (s, []).
+Proof. vm_compute. repeat split. Qed.
+
 (* ---------------------------------------------------------------- the repaired code *)
 Definition ns_wf (c : ns_cfg) : Prop := ns_fixed c = true /\ 0 <= ns_nstart c <= 255.
 
